@@ -222,6 +222,42 @@ def Encoder.encodeFec (e : Encoder) (media : List Bytes) (f : Nat) : Encoder × 
       let r := encodeLoop c e.pt e.ssrc (seqOf (media.getD 0 [])) (List.range f) e.fecSn
       ({ e with cov := some c, fecSn := r.1 }, some r.2)
 
+/-! ### media packets pion/rtp cannot marshal
+
+`encodeFlexFecPacket` marshals every covered packet into a scratch buffer; when `MarshalTo` fails
+(padding bit with padding size 0, a generic-profile extension whose payload is not a multiple of four
+bytes, …) it returns `false`: that repair packet is not emitted and no repair sequence number is consumed.
+The packets at the positions `bad` of the batch are the ones that fail; their bytes in `media` are
+placeholders (only the sequence number is read, by `consecutive`).  Repair packets that do not cover a
+bad position are what they would have been. -/
+
+/-- does FEC packet `i` cover a packet that cannot be marshalled? -/
+def Coverage.coversBad (c : Coverage) (bad : List Nat) (i : Nat) : Bool :=
+  (c.coveredBy i).any fun j => bad.contains j
+
+/-- the loop of `EncodeFec` when the packets at the positions `bad` fail to marshal. -/
+def encodeLoopBad (c : Coverage) (pt ssrc baseSn : Nat) (bad : List Nat) : List Nat → Nat → Nat × List FecPkt
+  | [], sn => (sn, [])
+  | i :: is, sn =>
+    if c.coversBad bad i then encodeLoopBad c pt ssrc baseSn bad is sn else
+    match fecPayload c i baseSn with
+    | none => encodeLoopBad c pt ssrc baseSn bad is sn
+    | some pl =>
+      let (sn', rest) := encodeLoopBad c pt ssrc baseSn bad is ((sn + 1) % 65536)
+      (sn', ⟨ssrc, pt, sn, 54243243, pl⟩ :: rest)
+
+/-- `EncodeFec` offered a batch whose packets at the positions `bad` cannot be marshalled. -/
+def Encoder.encodeFecBad (e : Encoder) (media : List Bytes) (f : Nat) (bad : List Nat) :
+    Encoder × Option (List FecPkt) :=
+  if media.length = 0 ∨ media.length > maxFlexFec03MediaPackets then (e, none)
+  else if !consecutive media then (e, none)
+  else
+    match nextCov e media f with
+    | none => ({ e with cov := none }, none)
+    | some c =>
+      let r := encodeLoopBad c e.pt e.ssrc (seqOf (media.getD 0 [])) bad (List.range f) e.fecSn
+      ({ e with cov := some c, fecSn := r.1 }, some r.2)
+
 /-! ### encoder_interceptor.go -/
 
 /-- stream state of the interceptor for the bound media SSRC. -/
@@ -253,6 +289,19 @@ def Icpt.write (s : Icpt) (p : Bytes) : Icpt × List Bytes × List FecPkt :=
     let buf := s.buffer ++ [p]
     if buf.length = s.numMedia then
       let (e, r) := s.enc.encodeFec buf s.numFec
+      ({ s with enc := e, buffer := [] }, [p], r.getD [])
+    else ({ s with buffer := buf }, [p], [])
+
+/-- one `Write` when the packets at the positions `bad` of the batch being collected (this packet included, if it is
+one of them) cannot be marshalled by pion/rtp: they are forwarded and buffered like any other packet; the repair packets
+that cover one of them are not produced. -/
+def Icpt.writeBad (s : Icpt) (p : Bytes) (bad : List Nat) : Icpt × List Bytes × List FecPkt :=
+  if !s.active then (s, [p], [])
+  else if ssrcOf p != s.mediaSsrc then (s, [p], [])
+  else
+    let buf := s.buffer ++ [p]
+    if buf.length = s.numMedia then
+      let (e, r) := s.enc.encodeFecBad buf s.numFec bad
       ({ s with enc := e, buffer := [] }, [p], r.getD [])
     else ({ s with buffer := buf }, [p], [])
 
